@@ -45,6 +45,7 @@ pub fn gen(seed: u64, _idx: u64, tier: Tier) -> Scenario {
     // runs with very long queues have no blocked waiter: the executor learns of a served waiter from the reply, which a
     // backlog of tens of KiB on that connection would delay by several turns
     let giant = r.chance(1, 10);
+    let mut giant_used = false;
     sc.knobs.insert("giant".into(), giant as i64);
     // transient outcomes of the server's reads / writes on a client's socket (EINTR, empty-handed or partial transfers)
     let syscall_faults = r.chance(1, 4);
@@ -58,10 +59,15 @@ pub fn gen(seed: u64, _idx: u64, tier: Tier) -> Scenario {
             1 => { // a whole transaction pipelined at once
                 sc.steps.push(Step::Send { c, a: vec![b("MULTI")], split: vec![] });
                 // (now and then a very long queue: every queued command must run, however many there are)
-                let k = if giant && r.chance(1, 4) { *r.pick(&[300u64, 1025, 4097, 9000]) } else { r.below(8) };
+                // (one very long queue per such run, sent while nobody else has anything in flight and drained before anybody goes on:
+                // what is checked is that every queued command runs; the executor's ordering rules are for short backlogs)
+                let long_one = giant && !giant_used && r.chance(1, 3);
+                if long_one { giant_used = true; sc.steps.push(Step::Turns { n: 6 }); }
+                let k = if long_one { *r.pick(&[300u64, 1025, 4097, 9000]) } else { r.below(8) };
                 for _ in 0..k { let a = if r.chance(1, 6) { failing(&mut r) } else { plain(&mut r, &mut uniq) }; sc.steps.push(Step::Send { c, a, split: vec![] }); }
                 if in_multi[c] { /* nested: the first MULTI of this batch is refused, the queue continues */ }
                 if r.chance(5, 6) { sc.steps.push(Step::Send { c, a: vec![b("EXEC")], split: vec![] }); in_multi[c] = false; } else { sc.steps.push(Step::Send { c, a: vec![b("DISCARD")], split: vec![] }); in_multi[c] = false; }
+                if long_one { sc.steps.push(Step::Turns { n: (k / 60 + 12) as u32 }); }
             }
             2 => { // a transfer between accounts inside MULTI/EXEC, delivered piecewise over several turns while others act
                 let (x, y) = (*r.pick(&["acct:a", "acct:b", "acct:c"]), *r.pick(&["acct:a", "acct:b", "acct:c"]));
@@ -127,7 +133,7 @@ pub fn exec(sc: &Scenario) -> Outcome {
 pub static DEF: CheckDef = CheckDef {
     id: "C07", level: "exploration", gen, exec,
     nontrivial: |o| o.counters.get("exec_batches").copied().unwrap_or(0) >= 1 && o.counters.get("cmds").copied().unwrap_or(0) >= 10,
-    rule: "one run = 2-4 connections over shared keys (three accounts with transfers, strings, a list, a set): plain commands with unique values, whole transactions pipelined at once (0-8 queued commands, in a tenth of the runs also 300 / 1025 / 4097 / 9000 of them, incl. ones failing at run time), transfers delivered piecewise over several turns while other clients read all accounts with MGET, nested MULTI, EXEC/DISCARD without MULTI, disconnect in mid-transaction, transfer and read scripts, a BLPOP waiter combined with a transaction that pushes and then inspects the list; requests of different connections are delivered before the same loop turn so the server's service order decides. The simulator derives the exact execution order of all requests from the transport seam (order of the server's reads) and feeds it to the sequential reference model with per-connection transaction state; oracle: every reply incl. each slot of every EXEC array equals the model's with the whole EXEC batch applied as one step at its position in the order, QUEUED for queued commands, errors in their slot, nothing applied after DISCARD/disconnect, and the stored dataset equals the model after every turn; in a quarter to a third of the runs single reads / writes of the server on a client's socket are made to fail with EINTR, to come back empty-handed (EAGAIN, reads only) or to transfer only 1..100 bytes (fault injection at the libc boundary) - transient outcomes that must not change any reply or the dataset; non-trivial = at least one executed EXEC batch and 10 commands",
+    rule: "one run = 2-4 connections over shared keys (three accounts with transfers, strings, a list, a set): plain commands with unique values, whole transactions pipelined at once (0-8 queued commands, in a tenth of the runs one queue of 300 / 1025 / 4097 / 9000 of them, sent and drained while the other connections are idle, incl. ones failing at run time), transfers delivered piecewise over several turns while other clients read all accounts with MGET, nested MULTI, EXEC/DISCARD without MULTI, disconnect in mid-transaction, transfer and read scripts, a BLPOP waiter combined with a transaction that pushes and then inspects the list; requests of different connections are delivered before the same loop turn so the server's service order decides. The simulator derives the exact execution order of all requests from the transport seam (order of the server's reads) and feeds it to the sequential reference model with per-connection transaction state; oracle: every reply incl. each slot of every EXEC array equals the model's with the whole EXEC batch applied as one step at its position in the order, QUEUED for queued commands, errors in their slot, nothing applied after DISCARD/disconnect, and the stored dataset equals the model after every turn; in a quarter to a third of the runs single reads / writes of the server on a client's socket are made to fail with EINTR, to come back empty-handed (EAGAIN, reads only) or to transfer only 1..100 bytes (fault injection at the libc boundary) - transient outcomes that must not change any reply or the dataset; non-trivial = at least one executed EXEC batch and 10 commands",
     quick_budget_s: 40.0, thorough_budget_s: 900.0, quick_max_runs: 1_000_000, thorough_max_runs: 100_000_000, exhaustive: false, exhaustive_after: |_| 0,
     real: REAL_WHOLE_SERVER, stub: STUB_WHOLE_SERVER, assumptions: ASSUME_COMMON,
 };
